@@ -28,6 +28,32 @@ def str_lits(node):
     return [n["value"] for n in S.walk(node) if n["k"] == "Lit" and n.get("lit") == "Str"]
 
 
+def r19_14(run, model):
+    run.rule("R19.14", "structs, enums and extern types share one name space: each becomes a top-level Go type under its goml name, so the "
+                       "function that rejects a second definition of a name treats the three kinds alike (one seen-set, not one per kind) - "
+                       "`struct Shape` next to `enum Shape` is an error, not two Go declarations `type Shape`")
+    TOP = "crates/compiler/src/typer/toplevel.rs"
+    n = 0
+    for g in model.fns(TOP):
+        if g.body is None:
+            continue
+        for m in S.find(g.body, "Match"):
+            arms = {}
+            for arm in m["arms"]:
+                for kind in re.findall(r"Def::(EnumDef|StructDef|ExternType)\b", S.norm_ws(run.facts.text(TOP, arm["pat"]["sp"]))):
+                    arms[kind] = arm
+            if len(arms) < 2 or not any(re.search(r"!\w+\.insert\(", S.norm_ws(run.facts.text(TOP, i_["cond"]["sp"]))) for i_ in S.find(g.body, "If")):
+                continue
+            n += 1
+            shape = {k: re.sub(r"\bdef\.\w+", "def.NAME", S.norm_ws(run.facts.text(TOP, a["body"]["sp"]))) for k, a in arms.items()}
+            ok = len(arms) == 3 and len(set(shape.values())) == 1
+            run.ob("R19.14", f"{g.name}|enum, struct and extern type names are tested against one another", ok, site(TOP, m["sp"]),
+                   f"kinds handled: {sorted(arms)}; per-kind treatment: {sorted(set(shape.values()))}",
+                   witness="struct Shape { side: int32 } enum Shape { Circle, Square }: accepted; the Go file declares `type Shape struct` and "
+                           "`type Shape interface`")
+    run.floor("duplicate tests over the kinds of type definitions", n, 1)
+
+
 def r19_1(run, model):
     run.rule("R19.1", "go_ident escapes exactly Go's 25 keywords; the keyword lookup is order-independent (pattern match / contains / set) or "
                       "its table is sorted when searched by bisection")
@@ -382,6 +408,7 @@ def run(run, model):
     run.try_rule(r19_10, model)
     run.try_rule(r19_12, model)
     run.try_rule(r19_13, model)
+    run.try_rule(r19_14, model)
     from rules import c17 as _c17
     run.rule("R19.11", "a user function cannot take the name of a builtin: define_function rejects a name that is already in the package's "
                        "function table, which holds the builtins too (shared with C16 R16.8) - the runtime defines those names and the back "
